@@ -68,6 +68,8 @@ def _strategy(draw):
     spec["coords"] = draw(c03.supplied_coords(spec, opts["box"], mode=mode, nres=nres,
                                               skip=opts.get("build_res", ())))
     if spec["coords"] and draw(st.integers(0, 3)) == 0:
+        spec["coords"]["primed"] = True
+    if spec["coords"] and draw(st.integers(0, 3)) == 0:
         # the atom-number column of the structure file starts again at 1 every few atoms
         spec["coords"]["restart"] = draw(st.integers(1, 7))
     if mode == "c" and ignore is None and not opts.get("build_res") and nres == total and draw(st.integers(0, 1)) == 0:
